@@ -64,6 +64,24 @@ EndOfScript == /\ result = "running" /\ Len(script) = MaxMsgs /\ result' = "err_
 Next == (\E m \in Alphabet : Recv(m)) \/ EndOfScript
 Spec == Init /\ [][Next]_vars
 
+\* ---------------------------------------------------------------- the client's opening phase
+\* What the client says before it starts listening, as stanza types in order.  kind: "recipient" (plugin.Recipient),
+\* "recipient-from-identity" (the recipient-v1 machine opened for a plugin identity: age -e -i / -j), "identity"
+\* (identity-v1, which forwards the nHdr stanzas of the file header, all with file index 0).
+Rep(x, n) == [i \in 1..n |-> x]
+Opening(kind, nHdr) ==
+  CASE kind = "recipient" -> <<"add-recipient", "grease", "wrap-file-key", "extension-labels", "done">>
+    [] kind = "recipient-from-identity" -> <<"add-identity", "grease", "wrap-file-key", "extension-labels", "done">>
+    [] kind = "identity" -> <<"add-identity", "grease">> \o Rep("recipient-stanza", nHdr) \o <<"done">>
+\* one target declaration and one grease stanza open every conversation, "done" closes the opening, and the file key is
+\* sent exactly once and only on the recipient side
+OpeningShape == \A k \in {"recipient", "recipient-from-identity", "identity"} : \A n \in 0..3 :
+   LET o == Opening(k, n) IN
+   /\ o[1] \in {"add-recipient", "add-identity"} /\ o[2] = "grease" /\ o[Len(o)] = "done"
+   /\ Cardinality({i \in 1..Len(o) : o[i] = "wrap-file-key"}) = (IF k = "identity" THEN 0 ELSE 1)
+   /\ Cardinality({i \in 1..Len(o) : o[i] = "recipient-stanza"}) = (IF k = "identity" THEN n ELSE 0)
+ASSUME OpeningShape
+
 \* ---------------------------------------------------------------- C16 as invariants
 OnlyIndexZero == (result = "ok" /\ Mode = "recipient") => stanzas = Cardinality({i \in 1..Len(script) : script[i] \in {"rs_ok", "rs_ok2"}})
 NoDuplicateKeyOrLabels == (result \in {"ok", "incorrect", "err_zero"}) =>
@@ -81,5 +99,6 @@ RepliesMatch == Len(replies) <= Len(script)
 Canonical == /\ ("disp" \notin used => ui.disp = "nil") /\ ("req" \notin used => ui.req = "nil") /\ ("conf" \notin used => ui.conf = "nil")
 Emit == (result # "running" /\ Canonical) =>
    PrintT("CASE " \o ToJson([mode |-> Mode, ui |-> ui, script |-> script, replies |-> replies, result |-> result,
-                              stanzas |-> stanzas, labels |-> labels, fk |-> fk]))
+                              stanzas |-> stanzas, labels |-> labels, fk |-> fk,
+                              opening |-> [k \in {"recipient", "recipient-from-identity", "identity"} |-> Opening(k, 2)]]))
 =============================================================================
